@@ -236,13 +236,42 @@ Go(M, c0, sym, ph, evs, fuel, dn, cons, raised) ==
 
 \* ---------------- one-byte-lookahead ambiguity (C09) ----------------
 \* first symbols (strong first sets) of what follows on the continuation stack, and whether it can be passed without input
-RECURSIVE AccK(_, _)
+\* The same first sets with the context a `break` needs: cont = "c starts what follows this list", aft = the set of loop ids such that c
+\* starts what follows that loop.  A branch that leaves a loop with break hands the symbol to the statement after the loop; a finish hands
+\* it to nobody.
+RECURSIVE AccB(_, _, _, _)
+AccB(ss, c, cont, aft) ==
+  IF ss = <<>> THEN cont ELSE
+  LET s == Head(ss) rest == AccB(Tail(ss), c, cont, aft) IN
+  CASE s.t = "match" -> c \in FirstOf(s.r) \/ (Nullable(s.r) /\ rest)
+    [] s.t = "wait" -> c \in FirstOf(s.r)
+    [] s.t = "opt" -> AccB(s.b, c, rest, aft) \/ rest
+    [] s.t = "loop" -> AccB(s.b, c, FALSE, IF rest THEN aft \cup {s.id} ELSE aft \ {s.id})
+    [] s.t \in {"try", "foreach"} -> AccB(s.b, c, rest, aft)
+    [] s.t = "case" -> \E i \in DOMAIN s.cl : c \in FirstOf(s.cl[i].r)
+    [] s.t = "if" -> (\E i \in DOMAIN s.br : AccB(s.br[i].b, c, rest, aft)) \/ AccB(s.eb, c, rest, aft)
+    [] s.t = "break" -> s.id \in aft
+    [] s.t = "finish" -> FALSE
+    [] IsAct(s) -> rest
+    [] OTHER -> FALSE
+
+LoopIds(K) == {K[i].id : i \in {j \in DOMAIN K : K[j].f = "L"}}
+RECURSIVE AccK(_, _), AftK(_, _)
+AftK(K, c) == {id \in LoopIds(K) : AccK(BreakTo(K, id), c)}
 AccK(K, c) ==
   IF K = <<>> THEN FALSE
   ELSE LET top == Head(K) IN
-    CASE top.f = "S" -> Accepts(top.s, c) \/ (PassList(top.s) /\ AccK(Tail(K), c))
-      [] top.f = "L" -> Accepts(top.b, c)                       \* the loop goes round: the body starts again
+    CASE top.f = "S" -> AccB(top.s, c, AccK(Tail(K), c), AftK(K, c))
+      [] top.f = "L" -> AccB(top.b, c, FALSE, AftK(K, c))       \* the loop goes round: the body starts again
       [] top.f \in {"T", "E"} -> AccK(Tail(K), c)
+      [] OTHER -> FALSE
+RECURSIVE AccKOld(_, _)
+AccKOld(K, c) ==
+  IF K = <<>> THEN FALSE
+  ELSE LET top == Head(K) IN
+    CASE top.f = "S" -> Accepts(top.s, c) \/ (PassList(top.s) /\ AccKOld(Tail(K), c))
+      [] top.f = "L" -> Accepts(top.b, c)
+      [] top.f \in {"T", "E"} -> AccKOld(Tail(K), c)
       [] OTHER -> FALSE
 \* cfg is settled and has no pending action.  TRUE iff symbol c admits two continuations at this point.
 Ambiguous(c, sym) ==
